@@ -30,25 +30,28 @@ Inductive cmd :=
 Record rattr := mkRA { r_fg : oz; r_bg : oz; r_bold : bool; r_ul : bool; r_blink : bool; r_rev : bool }.
 Definition rcell := (Z * option rattr)%type.          (* rendition None = erased cell, unspecified *)
 Definition rrow := list rcell.
+(* what the terminal answers on its line to the host *)
+Inductive reply := RStatusOk | RCursor (row col : Z).     (* DSR 5 -> "ready"; DSR 6 -> cursor position report, 1-based *)
 Record vt := mkVT { v_w : Z; v_h : Z; v_g : list rrow; v_x : Z; v_y : Z; v_pend : bool;
                     v_top : Z; v_bot : Z; v_attr : rattr;
                     v_sb : list rrow;            (* lines scrolled off the top of the screen, oldest first *)
-                    v_sbknown : bool }.          (* false once a region not starting at row 0 scrolled *)
+                    v_sbknown : bool;            (* false once a region not starting at row 0 scrolled *)
+                    v_replies : list reply }.    (* answers sent so far, oldest first *)
 
 Definition ra0 : rattr := mkRA None None false false false false.
 Definition blank : rcell := (32, None).
 Definition blanks (n : Z) : rrow := repeat blank (Z.to_nat n).
 Definition blank_rows (w n : Z) : list rrow := repeat (blanks w) (Z.to_nat n).
 Definition vt_init (w h : Z) : vt :=
-  mkVT w h (repeat (repeat (32, Some ra0) (Z.to_nat w)) (Z.to_nat h)) 0 0 false 0 (h - 1) ra0 [] true.
+  mkVT w h (repeat (repeat (32, Some ra0) (Z.to_nat w)) (Z.to_nat h)) 0 0 false 0 (h - 1) ra0 [] true [].
 
 Definition sub {A} (l : list A) (a b : Z) : list A := takez (b - a) (dropz a l).      (* l[a:b], 0 <= a *)
 Definition nth_row (g : list rrow) (y : Z) : rrow := match nthz g y with Some r => r | None => [] end.
 Definition set_row (g : list rrow) (y : Z) (r : rrow) : list rrow := takez y g ++ r :: dropz (y + 1) g.
 Definition with_g (v : vt) (g : list rrow) : vt :=
-  mkVT (v_w v) (v_h v) g (v_x v) (v_y v) (v_pend v) (v_top v) (v_bot v) (v_attr v) (v_sb v) (v_sbknown v).
+  mkVT (v_w v) (v_h v) g (v_x v) (v_y v) (v_pend v) (v_top v) (v_bot v) (v_attr v) (v_sb v) (v_sbknown v) (v_replies v).
 Definition with_xy (v : vt) (x y : Z) (p : bool) : vt :=
-  mkVT (v_w v) (v_h v) (v_g v) x y p (v_top v) (v_bot v) (v_attr v) (v_sb v) (v_sbknown v).
+  mkVT (v_w v) (v_h v) (v_g v) x y p (v_top v) (v_bot v) (v_attr v) (v_sb v) (v_sbknown v) (v_replies v).
 Definition one (n : Z) : Z := if n <=? 0 then 1 else n.           (* a count / coordinate parameter *)
 
 (* the scrolling region moves up one line; a line leaving row 0 goes to the scrollback *)
@@ -57,7 +60,7 @@ Definition scroll_up (v : vt) : vt :=
   let g' := takez (v_top v) g ++ sub g (v_top v + 1) (v_bot v + 1) ++ blanks (v_w v) :: dropz (v_bot v + 1) g in
   mkVT (v_w v) (v_h v) g' (v_x v) (v_y v) (v_pend v) (v_top v) (v_bot v) (v_attr v)
        (if v_top v =? 0 then v_sb v ++ [nth_row g 0] else v_sb v)
-       (v_sbknown v && (v_top v =? 0)).
+       (v_sbknown v && (v_top v =? 0)) (v_replies v).
 Definition scroll_down (v : vt) : vt :=
   let g := v_g v in
   with_g v (takez (v_top v) g ++ blanks (v_w v) :: sub g (v_top v) (v_bot v) ++ dropz (v_bot v + 1) g).
@@ -167,12 +170,14 @@ Definition exec (v : vt) (c : cmd) : vt :=
       let t := one t in
       let b := if b <=? 0 then h else b in
       if (t <? b) && (b <=? h)
-      then mkVT w h (v_g v) 0 0 false (t - 1) (b - 1) (v_attr v) (v_sb v) (v_sbknown v)
+      then mkVT w h (v_g v) 0 0 false (t - 1) (b - 1) (v_attr v) (v_sb v) (v_sbknown v) (v_replies v)
       else v
   | CSgr l =>
       mkVT w h (v_g v) x y (v_pend v) (v_top v) (v_bot v) (sgr (match l with [] => [0] | _ => l end) (v_attr v))
-           (v_sb v) (v_sbknown v)
-  | CDsr _ => v
+           (v_sb v) (v_sbknown v) (v_replies v)
+  | CDsr n =>
+      mkVT w h (v_g v) x y (v_pend v) (v_top v) (v_bot v) (v_attr v) (v_sb v) (v_sbknown v)
+           (v_replies v ++ (if n =? 5 then [RStatusOk] else if n =? 6 then [RCursor (y + 1) (x + 1)] else []))
   | CHt => with_xy v (Z.min (w - 1) ((x / 8 + 1) * 8)) y false
   end.
 
